@@ -133,6 +133,7 @@ fn run_scheduled(case: &SchedCase, samples: &[i32], seed: u64, partial: ExecResu
     let strategy = match case.strategy {
         1 => SchedStrategy::Pct,
         2..=4 => SchedStrategy::Starve(case.strategy - 2),
+        5 => SchedStrategy::HoldOne,
         _ => SchedStrategy::Uniform,
     };
     let s = Sched::new(strategy, case.choices.clone(), seed, case.pct_depth);
@@ -217,7 +218,7 @@ pub fn exec_case(case: &SchedCase) -> ExecResult {
     let s1 = run_scheduled(case, &samples, case.sched_seed, r.clone());
     r.classes.push(format!("threads:{}", s1.threads));
     if s1.ooo > 0 {
-        r.classes.push(format!("out-of-order-distance:{}", s1.ooo.min(8)));
+        r.classes.push(format!("out-of-order-distance:{}", if s1.ooo >= 1024 { ">=1024".to_string() } else if s1.ooo >= 64 { "64..1023".to_string() } else { s1.ooo.min(8).to_string() }));
     }
     if s1.worker_pop_while_feeder_blocked {
         r.classes.push("worker-popped-while-feeder-blocked".into());
@@ -293,6 +294,7 @@ pub fn exec_case(case: &SchedCase) -> ExecResult {
             (!case.faults.is_empty() && w >= 2 && case.faults.iter().any(|f| match f {
                 Fault::ReadErr(k) => *k >= 1,
                 Fault::Range(k, _) => *k >= 1,
+                Fault::Width(k) => *k >= 1,
             })) || (case.faults.is_empty() && nframes >= 2)
         }
         _ => s1.hasher_lagging || (nframes >= 2 && case.inp.bps != 16),
@@ -301,6 +303,7 @@ pub fn exec_case(case: &SchedCase) -> ExecResult {
         r.classes.push(match f {
             Fault::ReadErr(k) => format!("fault:read-error@{}", if *k == 0 { "0" } else if *k < nframes { "mid" } else { "end" }),
             Fault::Range(k, _) => format!("fault:out-of-range@{}", if *k == 0 { "0" } else if *k + 1 < nframes { "mid" } else { "last" }),
+            Fault::Width(k) => format!("fault:byte-width@{}", if *k == 0 { "0" } else if *k + 1 < nframes { "mid" } else { "last" }),
         });
     }
     if case.faults.len() >= 2 {
@@ -517,7 +520,7 @@ pub fn c05_strategy() -> BoxedStrategy<SchedCase> {
 }
 
 pub fn fault_strategy(nframes_max: usize) -> BoxedStrategy<Vec<Fault>> {
-    let one = move || prop_oneof![(0usize..=nframes_max).prop_map(Fault::ReadErr), (0usize..nframes_max.max(1), 0usize..4000).prop_map(|(k, o)| Fault::Range(k, o))];
+    let one = move || prop_oneof![(0usize..=nframes_max).prop_map(Fault::ReadErr), (0usize..nframes_max.max(1), 0usize..4000).prop_map(|(k, o)| Fault::Range(k, o)), (0usize..nframes_max.max(1)).prop_map(Fault::Width)];
     prop_oneof![
         2 => Just(vec![]),
         6 => one().prop_map(|f| vec![f]),
@@ -561,7 +564,7 @@ pub fn c03_strategy() -> BoxedStrategy<SchedCase> {
 pub fn run_c05(ctx: &Ctx) {
     ctx.rule(
         "cases = (config with multithread, >= 3-frame input (a tenth: empty or 1..15-sample inputs), workers in {1..8, None}, FLACENC_WORKERS in {unset, 1..8, '0', '', 'abc', '-1', ' 2', 2^70, '00'}, schedule = (strategy uniform | PCT | starve-the-hashing-thread | starve-the-feeder | starve-the-workers, choice bytes, seed); a fifth of the cases read from a packet source (short reads in mid-stream); a quarter of the cases have 17..=45 frames (more than the hashing queue and the frame buffers hold)); \
-         every case runs in an executor process under the schedule-owning scheduler (a further family uses real OS threads with 34..90 small blocks and 8..32 workers, optionally with the hashing thread / the feeder / the workers slowed down at their hook points, for code paths that pass no hook point; and a grid of 127..4100-frame streams (thorough: up to 70000) whose frame numbers take 2..4 bytes); oracle: bytes(multi under schedule) == bytes(single) == bytes(frame-by-frame assembly) == bytes(multi under a second schedule), no dead-lock, no panic, no thread alive at return; \
+         every case runs in an executor process under the schedule-owning scheduler (a further family uses real OS threads with 34..90 small blocks and 8..32 workers, optionally with the hashing thread / the feeder / the workers slowed down at their hook points, for code paths that pass no hook point; and a grid of 127..4100-frame streams (thorough: up to 70000) whose frame numbers take 2..4 bytes; general shapes (1..=8 channels, blocks up to 4608, all source kinds, with and without length hint) under real threads; and owned schedules of 1027..4200 frames in which one worker is held at the result sink until every other frame has overtaken it); oracle: bytes(multi under schedule) == bytes(single) == bytes(frame-by-frame assembly) == bytes(multi under a second schedule), no dead-lock, no panic, no thread alive at return; \
          non-trivial = result pushes out of frame order, or a worker popped a buffer while the feeder was blocked on the refill queue, or a real-thread run with more than 16 blocks",
     );
     ctx.assume("only hook points are scheduling points: par.rs shares state only through the channels, mutexes and Arcs the hook sees; interleavings inside crossbeam/std and weak-memory effects are not explored");
@@ -594,6 +597,29 @@ pub fn run_c05(ctx: &Ctx) {
         .collect();
     let nb = big.len() as u64;
     ctx.enumerate("real-threads-thousands-of-frames", 6, nb, |i| big[i as usize].clone(), check);
+    // general shapes under real threads: 1..=8 channels, block sizes up to 4608, every source kind with and without
+    // a length hint (the scheduled families keep inputs tiny: <= 3 channels, blocks <= 192)
+    ctx.search("real-threads-wide-shapes", 6, per, &|| {
+        (gen::cfg_input_strategy(CfgOpts { max_block: 4608, ..Default::default() }, InOpts { budget: 24_000, ..Default::default() }), 1usize..=6, super::common::src_strategy(), any::<bool>(), any::<u64>()).prop_map(|((mut cfg, inp), workers, src, fe, s)| {
+            cfg.multithread = true;
+            cfg.workers = Some(workers);
+            SchedCase { purpose: "c05".into(), cfg, inp, src, fill_empty_at_end: fe, faults: vec![], env: None, strategy: 9, pct_depth: 0, choices: vec![], sched_seed: s, sched_seed2: s ^ 1, packet: 0, len_hint: s % 2 == 0 }
+        })
+    }, check);
+    // one worker held at the result sink while more than a thousand frames overtake it (owned schedule)
+    {
+        let n = if ctx.tier == Tier::Thorough { 24u64 } else { 6 };
+        ctx.enumerate("sched-hold-one-worker", 6, n, |i| {
+            let frames = [1100usize, 1300, 1027, 2100, 1500, 4200][i as usize % 6];
+            let mut cfg = CfgSpec::default();
+            cfg.block_size = 32;
+            cfg.multithread = true;
+            cfg.workers = Some(2 + i as usize % 3);
+            cfg.use_lpc = false;
+            let inp = InputSpec { channels: 1, bps: 8, rate: 8000, len: frames * 32 - (i as usize % 2) * 7, chans: vec![gen::ChanSpec { segs: vec![gen::Seg { class: if i % 2 == 0 { 0 } else { 4 }, amp: 1, p: 5 }] }], rel: 0, seed: 40 + i, explicit: None };
+            SchedCase { purpose: "c05".into(), cfg, inp, src: if i % 2 == 0 { SrcKind::Int } else { SrcKind::Mem }, fill_empty_at_end: true, faults: vec![], env: None, strategy: 5, pct_depth: 0, choices: vec![], sched_seed: crate::util::mix(ctx.seed, 77 + i), sched_seed2: 0, packet: 0, len_hint: i % 2 == 1 }
+        }, check);
+    }
     if ctx.tier == Tier::Thorough {
         real_thread_layer(ctx, "c05");
     }
@@ -615,8 +641,8 @@ pub fn run_c06(ctx: &Ctx) {
     let mut grid: Vec<SchedCase> = vec![];
     for frames in 1..=max_frames {
         for k in 0..=frames {
-            for kind in 0..2 {
-                if kind == 1 && k == frames {
+            for kind in 0..3 {
+                if kind >= 1 && k == frames {
                     continue;
                 }
                 for w in 1..=max_workers {
@@ -626,7 +652,7 @@ pub fn run_c06(ctx: &Ctx) {
                         cfg.multithread = true;
                         cfg.workers = Some(w);
                         let inp = InputSpec { channels: 1 + (frames + k) % 2, bps: 16, rate: 44100, len: frames * 32 - (k % 2) * 5, chans: vec![gen::ChanSpec { segs: vec![gen::Seg { class: 5, amp: 3, p: 77 }] }; 2], rel: 0, seed: (frames * 100 + k) as u64, explicit: None };
-                        let faults = vec![if kind == 0 { Fault::ReadErr(k) } else { Fault::Range(k, 3) }];
+                        let faults = vec![match kind { 0 => Fault::ReadErr(k), 1 => Fault::Range(k, 3), _ => Fault::Width(k) }];
                         grid.push(SchedCase {
                             purpose: "c06".into(),
                             cfg,
@@ -650,7 +676,7 @@ pub fn run_c06(ctx: &Ctx) {
     }
     let n = grid.len() as u64;
     ctx.enumerate("fault-positions", 12, n, |i| grid[i as usize].clone(), check);
-    ctx.set_extra("fault_grid", serde_json::json!({"frames": format!("1..={max_frames}"), "positions": "every k in 0..=frames", "kinds": ["read error", "out-of-range sample"], "workers": format!("1..={max_workers}"), "schedules_per_point": scheds, "points": n}));
+    ctx.set_extra("fault_grid", serde_json::json!({"frames": format!("1..={max_frames}"), "positions": "every k in 0..=frames", "kinds": ["read error", "out-of-range sample", "byte fill with a wrong container width"], "workers": format!("1..={max_workers}"), "schedules_per_point": scheds, "points": n}));
     let per = ctx.tier.scale(300, 12);
     ctx.search("sched-faults", 12, per, &c06_strategy, check);
     // real OS threads with faults (no owned schedule; a hang here is inconclusive, the exact verdict comes from the scheduler)
@@ -658,7 +684,8 @@ pub fn run_c06(ctx: &Ctx) {
         (real_threads_strategy("c06"), any::<u64>()).prop_map(|(mut c, s)| {
             let nf = enc::frames_of(c.inp.len, c.cfg.block_size, 0).max(1);
             let k = (s % nf as u64) as usize;
-            c.faults = match s % 4 {
+            c.faults = match s % 5 {
+                4 => vec![Fault::Width(k)],
                 0 => vec![],
                 1 => vec![Fault::ReadErr(k)],
                 2 => vec![Fault::Range(k, (s >> 8) as usize % 4000)],
